@@ -406,7 +406,9 @@ fn parse_cfg(v: &Value) -> Config {
 fn main() {
     let cli = cli();
     assert_eq!(cli.property, "C16");
-    vf_explore::quiet_panics();
+    if cli.replay.is_none() {
+        vf_explore::quiet_panics();
+    }
     if let Some(rp) = &cli.replay {
         let v: Value = vf_explore::serde_json::from_str(&std::fs::read_to_string(rp).unwrap()).unwrap();
         let cfg = parse_cfg(&v["case"]["config"]);
